@@ -38,9 +38,10 @@ def generate(rep, gen_module, gen_cfg, num, depth, seed, allvars=False, timeout=
 
 
 def validate(rep, pid, module_name, trace_module, trace_cfg, traces, describe=None, payload=None, chunk=200, nproc=14,
-             known=None):
+             known=None, extra_env=None):
     """traces: list of dicts with 'steps' (+ anything replay needs).  Returns list of accepted traces."""
-    res, runs = tlc.validate_parallel(trace_module, trace_cfg, traces, nproc=nproc, chunk=chunk, timeout=3000)
+    res, runs = tlc.validate_parallel(trace_module, trace_cfg, traces, nproc=nproc, chunk=chunk, timeout=3000,
+                                      **(dict(extra_env=extra_env) if extra_env else {}))
     for r in runs:
         rep.cov["states"] += r.distinct
         rep.cov["transitions"] += r.generated
@@ -64,7 +65,7 @@ def validate(rep, pid, module_name, trace_module, trace_cfg, traces, describe=No
                 ok.append(t)
     if bad:
         env, _ = tlc.validate_parallel(trace_module, trace_cfg, [traces[i] for i in bad[:60]], nproc=6,
-                                       extra_env={"VMODE": "env"})
+                                       extra_env=dict(extra_env or {}, VMODE="env"))
         n = 0
         for i, e in zip(bad, env):
             x = res[i]
@@ -85,6 +86,6 @@ def validate(rep, pid, module_name, trace_module, trace_cfg, traces, describe=No
                 pl.update(payload(t) if payload else dict(script=strip_obs(t)))
                 rep.violation(what, pl)
                 n += 1
-        rep.cov["rejected_traces"] = len(bad)
-    rep.cov["traces_validated_against_impl"] = len(ok)
+        rep.cov["rejected_traces"] = rep.cov.get("rejected_traces", 0) + len(bad)
+    rep.cov["traces_validated_against_impl"] = (rep.cov.get("traces_validated_against_impl") or 0) + len(ok)
     return ok
